@@ -548,6 +548,7 @@ func (lr *limitReader) reset(r io.Reader) {
 
 func (lr *limitReader) Read(p []byte) (int, error) {
 	if lr.n < 0 {
+		vpool(3, 1, lr.r)
 		return lr.r.Read(p)
 	}
 
@@ -560,6 +561,7 @@ func (lr *limitReader) Read(p []byte) (int, error) {
 	if int64(len(p)) > lr.n {
 		p = p[:lr.n]
 	}
+	vpool(3, 1, lr.r)
 	n, err := lr.r.Read(p)
 	lr.n -= int64(n)
 	if lr.n <= 0 {
